@@ -10,7 +10,18 @@ vars == <<call>>
 
 Missing(n) == {Append(Front(e), "nope") : e \in {x \in UniverseTable[n] : Len(x) > 1}}
               \cup {Append(e, "nope") : e \in {x \in UniverseTable[n] : Len(x) \in {3, 5}}}
-SidReadCalls(n) == {[op |-> "sidreads", univ |-> n, segs |-> e] : e \in UniverseTable[n] \cup Missing(n)}
+\* a constant-backed entity below a parent that does not exist (constants exist only below an existing parent)
+MissingDeep(n) ==
+  UNION {LET t == ResolveFirst(e).type IN
+         IF t = "" \/ Len(e) < 3 THEN {} ELSE
+         IF ~IsConstType(t) THEN {} ELSE
+         LET ph == Templates[IdxOf(t)].ph[Len(e) - 1]
+             cands == {[e EXCEPT ![Len(e) - 1] = NthConcrete(ph, k)] : k \in 1..6}
+             good == {c \in cands : ResolveFirst(c).type = t /\
+                        ~\E x \in UniverseTable[n] : Len(x) >= Len(c) - 1 /\ SubSeq(x, 1, Len(c) - 1) = Front(c)}
+         IN IF good = {} THEN {} ELSE {CHOOSE c \in good : TRUE}
+         : e \in UniverseTable[n]}
+SidReadCalls(n) == {[op |-> "sidreads", univ |-> n, segs |-> e] : e \in UniverseTable[n] \cup Missing(n) \cup MissingDeep(n)}
 \* a few searches per universe: the first leaf, with progressively more of it searched
 GetterSearches(n) ==
   LET p == CHOOSE p \in 1..Len(n) : SubSeq(n, p, p) = ":"
